@@ -146,12 +146,26 @@ def r03_2(ck, sa, quiet):
     f = sa.rf.fi
     gt, end = Lin.sym('gt'), Lin.sym('end_time')
     results = {}
+    pt = Lin.sym('pt')
     for st in sa.poll_states:
+        invoked = False
         for e in st.events:
+            if e[0] == 'invoke':
+                invoked = True
             if e[0] != 'fullstep-term':
                 continue
             stmt, term, facts, trace = e[1], e[2], e[3], e[4]
-            label = A.unparse(stmt) + ' [' + _branch_label(stmt, sa) + ']'
+            # the construct is named by what it computes, not by how it is
+            # spelled: the linear form of the term and the kind of path
+            if invoked:
+                kind = 'after the process was invoked'
+            elif entails(facts, le(pt, gt)):
+                kind = 'process due but not invoked'
+            else:
+                kind = 'process not due'
+            label = 'full_step term (%r) [%s]' % (term, kind) \
+                if isinstance(term, Lin) else \
+                'full_step term %s [%s]' % (A.unparse(stmt), kind)
             if not isinstance(term, Lin):
                 results.setdefault(label, []).append(
                     (False, stmt, 'term is not linear', trace))
@@ -168,9 +182,10 @@ def r03_2(ck, sa, quiet):
         if bad:
             trace = ', '.join('%s=%s' % t for t in bad[0][3])
             ck.fail('R03.2', f, label,
-                    'a step folded into full_step is not provably positive '
-                    '(%s) on the path [%s]: the clock can stall or run '
-                    'backwards' % (bad[0][2], trace), stmt,
+                    'a step folded into full_step by `%s` is not provably '
+                    'positive (%s) on the path [%s]: the clock can stall or '
+                    'run backwards' % (A.unparse(stmt), bad[0][2], trace),
+                    stmt,
                     what='term of full_step is >= 0, and > 0 before the end')
         else:
             ck.ok('R03.2', f, label, 'term of full_step is >= 0, and > 0 '
@@ -216,7 +231,7 @@ def r03_2(ck, sa, quiet):
             ck.ok('R03.2', f, label, 'clock assignment is monotone, '
                   'bounded by end_time and makes progress before the end',
                   stmt)
-    ck.floor('R03.2', len(seen), 3, 'assignments to global_time')
+    ck.floor('R03.2', len(seen), 2, 'assignments to global_time')
     # every advance scenario before the end advances the clock
     stuck = set()
     for st in sa.adv_states:
